@@ -124,13 +124,13 @@ func c11Config(variant, servers int, deadPrimary bool) string {
 
 func drawC11(rt *rapid.T) C11Scenario {
 	var sc C11Scenario
-	sc.Sched = detsim.DrawSched(rt, 600)
+	sc.Sched = detsim.DrawSched(rt, detsim.Scale(600, 2000))
 	sc.Workers = []int{2, 2, 3, 4, 4, 8, 16, 64}[rapid.IntRange(0, 7).Draw(rt, "workers")]
 	sc.Servers = []int{0, 0, 1, 1, 2}[rapid.IntRange(0, 4).Draw(rt, "servers")]
 	sc.ConfigVar = rapid.IntRange(0, 2).Draw(rt, "cfg")
 	sc.ShowDups = rapid.Bool().Draw(rt, "showdups")
 	sc.MinSev = []string{"info", "warning", "warning", "bug"}[rapid.IntRange(0, 3).Draw(rt, "minsev")]
-	nf := rapid.IntRange(1, 4).Draw(rt, "nfiles")
+	nf := rapid.IntRange(1, detsim.Scale(4, 7)).Draw(rt, "nfiles")
 	for i := 0; i < nf; i++ {
 		strict := rapid.IntRange(0, 2).Draw(rt, "strict") > 0
 		dir := "rules"
